@@ -22,7 +22,7 @@ import numpy as np
 from ..contracts import attach, detach_all
 from ..core import parity
 from ..refmodels.dft import origin_pad, pair, ref_dft
-from .c01 import HarnessError, _safe, axes_class, conf_bits, diagnose_czt, is_single, make_input, shape_kind
+from .c01 import HarnessError, _safe, axes_class, conf_bits, diagnose_czt, is_single, make_input, rtol_for, shape_kind
 from .c01 import KEY_AMBIG as C01_AMBIG, KEY_START as C01_START, KEY_SWAP as C01_SWAP
 
 RULE = ('cases are (shape, Q, dtype/precision) for the padded FFT pair, (shape, integer output shape >= shape) for the '
@@ -31,7 +31,8 @@ RULE = ('cases are (shape, Q, dtype/precision) for the padded FFT pair, (shape, 
         'non-zero samples; distinct = distinct descriptor')
 ASSUMPTIONS = [
     'origin-aligned zero padding puts input sample n//2 on output sample N//2 (own placement, not prysm.pad2d)',
-    'energy = sum |field|^2; relative tolerance 1e-10 (float64) / 1e-3 (float32); field comparisons 1e-9 / 1e-3 of max|reference|',
+    'energy = sum |field|^2; relative tolerance 1e-10 (float64) / 1e-3 (float32); field comparisons 1e-9 / 1e-3 of max|reference| (band-complete pairs: of ||a||_2, '
+    'raised to 1000 eps * kernel phase where that is larger, as in C01)',
     'additivity in distance is compared with tolerance 1e-10 + 500 eps * (total transfer-function phase in rad); cases where that '
     'exceeds 1e-3 are ill-conditioned in the working precision and are excluded and counted',
     'group laws of free space are checked at Q == 1 only (Q != 1 pads the array, so only energy is defined)',
@@ -281,11 +282,19 @@ def band_complete(ctx, engine, a, n, out, order, desc, single):
     mon = f'{engine}.band-complete'
     CTX.observe(mon)
     e_in, e_F = energy(a), energy(F)
-    etol = (ETOL32 if single else ETOL64) * e_in
     F = np.asarray(F)
     back = np.asarray(back)
-    scale = float(np.max(np.abs(a)))
-    rtol = (1e-3 if single else 1e-9) * scale
+    scale = float(np.sqrt(np.sum(np.abs(a.astype(np.complex128)) ** 2)))      # ||a||_2 bounds the error of the two-leg trip
+    # conditioning of the two legs in the working precision (same rule as C01: floor, raised to 1000 eps * kernel phase)
+    r1 = rtol_for(engine, single, n, Q, out, (0.0, 0.0))
+    r2 = rtol_for(engine, single, out, (1.0, 1.0), n, (0.0, 0.0))
+    if r1 is None or r2 is None:
+        CTX.observe(mon, -1)
+        CTX.skip('band-complete: kernel phase beyond the resolution of the working precision (ill-conditioned)')
+        return
+    rel = max(r1, r2)
+    etol = max(ETOL32 if single else ETOL64, 2 * rel if single else 0.0) * e_in
+    rtol = rel * scale
     bad_energy = not abs(e_F - e_in) <= etol
     bad_rt = back.shape != a.shape or not (np.isfinite(back).all() and float(np.max(np.abs(back - a))) <= rtol)
     if not bad_energy and not bad_rt:
@@ -300,7 +309,7 @@ def band_complete(ctx, engine, a, n, out, order, desc, single):
         fwd1 = order == 'fwd-inv'
         l1 = float(np.abs(a).sum()) / math.sqrt(out[0] * out[1])
         ref1 = ref_dft(a, Q, out, (0, 0), fwd1)
-        tol1 = (1e-3 if single else 1e-9) * l1
+        tol1 = r1 * l1
         if float(np.max(np.abs(F - ref1))) > tol1:
             c = diagnose_czt(a, Q, out, (0.0, 0.0), fwd1, F, tol1)
             if c:
@@ -310,7 +319,7 @@ def band_complete(ctx, engine, a, n, out, order, desc, single):
         if back.shape == tuple(n):
             l2 = float(np.abs(F).sum()) / math.sqrt(out[0] * out[1])
             ref2 = ref_dft(F, (1.0, 1.0), n, (0, 0), not fwd1)
-            tol2 = (1e-3 if single else 1e-9) * l2
+            tol2 = r2 * l2
             if float(np.max(np.abs(back - ref2))) > tol2:
                 c = diagnose_czt(F, (1.0, 1.0), n, (0.0, 0.0), not fwd1, back, tol2)
                 if c:
@@ -335,8 +344,8 @@ def band_complete(ctx, engine, a, n, out, order, desc, single):
 def wl_band_complete(ctx, rng):
     from prysm import fttools
     from ..util import precision
-    nmax = ctx.pick(6, 9)
-    grow = ctx.pick(5, 9)
+    nmax = ctx.pick(7, 10)
+    grow = ctx.pick(6, 10)
     cases = []
     for (n0, n1) in shapes_upto(nmax):
         for d0 in range(0, grow + 1):
@@ -391,7 +400,7 @@ def wl_free_space(ctx, rng):
     dxs = [1e-3, 0.01, 0.1, 1.0]
     zs = [0.0, 1e-9, -1e-9, 1.0, -1.0, 1e3, -1e3, 0.37, -25.0]
     k = -1
-    reps = ctx.pick(6, 12)
+    reps = ctx.pick(10, 20)
     for (m, n) in shapes:
         for rep in range(reps):
             k += 1
